@@ -5,7 +5,7 @@ RULE = ("E1: ModZip.Classify - the documented rules in their documented order (u
         "1.24+ variants, nested module, .hg_archival.txt, ill-formed path, mis-cased go.mod, Lstat failure, collision, symlink, "
         "irregular, oversized go.mod / LICENSE); TLC checks on every generated list that each path given once lands in exactly one "
         "list (ExactlyOneList) and that the lists as sets do not depend on the order of the input when nothing collides "
-        "(OrderIndependentClass, list against its reverse). E2: every list of up to 2 (thorough: 3) files over the curated path "
+        "(OrderIndependentClass, list against its reverse). E2: every list of up to 2 files over the full path set (thorough: also 3 over the core set, 275 k lists) "
         "set x modes x sizes x go versions (absent, old, 1.24+, unparsable) is given to the real zip.CheckFiles and the three lists "
         "compared with Classify; every list made only of regular files and directories is also materialized as a directory tree "
         "and zip.CheckDir / zip.CreateFromDir compared with zip.CheckFiles / zip.Create on the list of its files (same verdict, "
@@ -15,7 +15,7 @@ RULE = ("E1: ModZip.Classify - the documented rules in their documented order (u
 
 def run(ctx):
     q = ctx.quick()
-    return zipcheck.run(ctx, "c17:", ["ModZipGen_files_full2"] if q else ["ModZipGen_files_full2", "ModZipGen_files_small3", "ModZipGen_files_full3"], [],
+    return zipcheck.run(ctx, "c17:", ["ModZipGen_files_full2"] if q else ["ModZipGen_files_full2", "ModZipGen_files_small3"], [],
                         3000 if q else 60000, RULE,
                         assumptions=["directory trees are compared only when the list is materializable: regular files and directories, clean relative names "
                                      "the file system accepts, no VCS metadata directories"])
